@@ -662,7 +662,7 @@ func writeEvidence(id string, cfg *PropConfig, opts checkOpts, res *checkResult,
 			"panic_sites_covered_by_submission_dry_run": dryRunCovered,
 			"samples":             samples,
 			"load_s":              round3(prog.LoadS),
-			"explanation":         "contract-based deductive verification: obligations generated by symbolic execution of the go/ssa form of the functions under contract in /repo (built on this run), discharged by SMT solvers (unsat of the negated obligation)",
+			"explanation":         explanationFor(level),
 			"evaluations":         len(all),
 			"distinct_nontrivial": distinctNontrivial(all),
 			"rule":                "one evaluation per generated obligation; non-trivial = needed a solver call (goal not syntactically true); distinct by obligation name + path condition",
@@ -685,3 +685,10 @@ func distinctNontrivial(all []*Obligation) int {
 }
 
 func round3(x float64) float64 { return float64(int(x*1000+0.5)) / 1000 }
+
+func explanationFor(level string) string {
+	if level == "other" {
+		return "sufficient-condition check for a two-run property: a mechanical inventory over the go/ssa form of every non-test teleport function (built from /repo on this run) for sources of nondeterminism, each site required to be on a justified allow list; the justifications that are themselves contracts are proved by the same VC generator (obligations listed); this is not a proof of determinism"
+	}
+	return "contract-based deductive verification: obligations generated by symbolic execution of the go/ssa form of the functions under contract in /repo (built on this run), discharged by SMT solvers (unsat of the negated obligation)"
+}
